@@ -153,7 +153,7 @@ def inner (H : Crypto.Prims) (P : Cipher.Prims) (v : Option Session.Ver) (a : Pi
     match v with
     | none => .raised
     | some v =>
-      if comp ≠ 0 then .raised else
+      if comp = 1 then .raised else
       match Pipeline.secretsOf (v = .tls13) found with
       | none => .raised
       | some secrets =>
@@ -330,7 +330,7 @@ theorem inner_congr13 (H : Crypto.Prims) (P : Cipher.Prims) (a : Pipeline.SuiteA
     | cons k2 r2 =>
       simp only at h
       simp only [inner, decide_true, secretsOf_true]
-      by_cases hcomp : comp ≠ 0
+      by_cases hcomp : comp = 1
       · rw [if_pos hcomp, if_pos hcomp]
       · rw [if_neg hcomp, if_neg hcomp]
         cases hs1 : scan labels13 (k1 :: r1) fun _ => none with
@@ -425,7 +425,7 @@ theorem inner_congr12 (H : Crypto.Prims) (P : Cipher.Prims) (v : Option Session.
       | some v' =>
         have hv' : v' ≠ .tls13 := fun e => hv (by rw [e])
         simp only [inner, hv', decide_false]
-        by_cases hcomp : comp ≠ 0
+        by_cases hcomp : comp = 1
         · rw [if_pos hcomp, if_pos hcomp]
         · rw [if_neg hcomp, if_neg hcomp]
           have e1 := hl1 k1 (by simp)
